@@ -152,6 +152,69 @@ func rt_3(sig dmSignal) func(c *core.Ctx, p *core.Prog) {
 				}
 			}
 		}
+		// derived columns: a column fed by several getters of one entity (duration = end − start). A field
+		// whose only column is derived must be restored from that column together with the own columns
+		// of the other getters feeding it; restoring it from the derived column alone yields the difference.
+		feed := map[string]map[string]bool{} // entity|column → getters
+		for g, ec := range encCols {
+			tn := g[:strings.Index(g, ".")]
+			for cn := range ec {
+				k := tn + "|" + cn
+				if feed[k] == nil {
+					feed[k] = map[string]bool{}
+				}
+				feed[k][g] = true
+			}
+		}
+		var dks []string
+		for k, gs := range feed {
+			if len(gs) >= 2 {
+				dks = append(dks, k)
+			}
+		}
+		sort.Strings(dks)
+		for _, k := range dks {
+			tn, col := k[:strings.Index(k, "|")], k[strings.Index(k, "|")+1:]
+			var gs []string
+			for g := range feed[k] {
+				gs = append(gs, g)
+			}
+			sort.Strings(gs)
+			for _, g := range gs {
+				// g has no own column
+				own := false
+				for cn := range encCols[g] {
+					if len(feed[tn+"|"+cn]) == 1 {
+						own = true
+					}
+				}
+				if own || len(decCols[g]) == 0 {
+					continue
+				}
+				need := map[string]bool{col: true}
+				for _, h := range gs {
+					if h == g {
+						continue
+					}
+					for cn := range encCols[h] {
+						if len(feed[tn+"|"+cn]) == 1 {
+							need[cn] = true
+						}
+					}
+				}
+				var missing []string
+				for cn := range need {
+					if !decCols[g][cn] {
+						missing = append(missing, cn)
+					}
+				}
+				sort.Strings(missing)
+				s := decAt[g]
+				c.Check(len(missing) == 0, sig.name+"|derived|"+g, p.Pos(s.pos), s.fn.String(),
+					fmt.Sprintf("%s has no column of its own (it is encoded into the derived column %s) and is restored from %v", g, col, keys(decCols[g])),
+					fmt.Sprintf("%s is encoded only into the derived column %s (fed by %v) but the decoder restores it from %v without %v: the field comes back as the difference, not the value", g, col, gs, keys(decCols[g]), missing))
+			}
+		}
 		c.Stats["RT.3 paired fields "+sig.name] = traced
 		c.Stats["RT.3 origin rounds"] = e.rounds
 	}
